@@ -23,6 +23,14 @@ M = [
   "        if !ooq_slot_is_default(slot) {\n            return Ok(AssemblerAddRemoveResult::AlreadyPresent);\n        }\n", "", "duplicates overwrite an occupied slot and are counted twice"),
  ("c01-duplicate-path-drops-ack-result", "C01", "C01.7", "Ok-exit-after(remove_up_to_ack)-drops-OnAckResult", "src/stream_dispatch.rs",
   "                    METRICS.incoming_already_acked_data_packets.increment(1);\n                    return Ok(result);", "                    METRICS.incoming_already_acked_data_packets.increment(1);\n                    return Ok(Default::default());", "same as seeded C01-b"),
+ ("c01-reader-offset-not-advanced", "C01", "C01.8", "copy-without|current.offset += len", "src/stream_rx.rs",
+  "                written += len;\n                current.offset += len;\n", "                written += len;\n                if written < 1 {\n                    current.offset += len;\n                }\n", "second buffer of a vectored read re-reads the same bytes"),
+ ("c01-reader-clears-current-early", "C01", "C01.8", "current=None|not-under(offset==payload.len())", "src/stream_rx.rs",
+  "                if current.offset == current.payload.len() {\n                    self.current = None;", "                if current.offset >= len {\n                    self.current = None;", "tail of a partially read message is dropped"),
+ ("c01-reader-eof-before-count", "C01", "C01.8", "Ok(0)|not-under(written==0)", "src/stream_rx.rs",
+  "        if written > 0 {\n            let mut g = self.shared.locked.lock();", "        if self.is_eof {\n            return Poll::Ready(Ok(0));\n        }\n\n        if written > 0 {\n            let mut g = self.shared.locked.lock();", "bytes copied just before EOF are reported as 0"),
+ ("c01-reader-pop-while-pending", "C01", "C01.8", "copy-shape", "src/stream_rx.rs",
+  "                let len = current_buf.len().min(payload.len());\n                current_buf[..len].copy_from_slice(&payload[..len]);", "                let len = current_buf.len().min(payload.len());\n                current_buf[..len].copy_from_slice(&current.payload[..len]);", "every chunk re-reads the message from its start"),
  # ---------------------------------------------------------------- C02
  ("c02-writer-drop-no-wake", "C02", "C02.1", "mark_writer_dropped|write(UserTxLocked.writer_dropped=true)|", "src/stream_tx.rs",
   "            self.writer_dropped = true;\n            if let Some(w) = self.dispatcher_waker.take() {\n                w.wake();\n            }\n", "            self.writer_dropped = true;\n", "dropping the writer no longer wakes the dispatcher"),
